@@ -48,17 +48,22 @@ Print Assumptions C13_globals_released.
    return normally, request shutdown() unless a request is already pending, and the tasks polled in
    that event end at once.  [events_of] drops the tear-down records; [others m] keeps, in order, every
    record of every module other than m (callbacks with their time stamps, task steps, sends, logs,
-   requests, resets).  These are the same in the two runs: no other module
-   can tell whether m panicked or merely fell silent -- whichever callbacks of m panic, however
-   often (m may have requested a restart before panicking and panic again later), and whatever m's
-   left-over wake-ups do to the event set.
-   Full statement, not proved: the same without the hypothesis [c_stages (cfg sc m) = 1], including
-   the tear-down records up to their time stamp.  It is FALSE of the model and of the pinned code for
-   modules with several start-up stages: SimLifecycle::at_sim_start still calls the later stages of a
-   module whose stage 0 panicked, which polls the tasks spawned before the panic; such a task can
-   request a restart and send, so that other modules receive messages they would not have received
-   (witness: corpus/C13/multistage_panic.txt, proposed patch fixes/F15.diff). *)
-Theorem C13_others_as_if_silent_partial : forall sc m, c_stages (cfg sc m) = 1 ->
+   requests, resets).  These are the same in the two runs: no other module can tell whether m
+   panicked or merely fell silent -- whichever callbacks of m panic, however often (m may have
+   requested a restart before panicking and panic again later), and whatever m's left-over
+   wake-ups do to the event set.  Since 1526470 (the start-up sweep skips modules that an earlier
+   stage deactivated) this holds for modules with any number of start-up stages whose stereotype
+   does not catch panics, and for catching modules with a single stage.
+   Still missing for the full statement (no hypothesis, tear-down included):
+   (1) catching modules with several stages: ModuleRef::module_restart goes on with the later stages
+       after a caught panic of an earlier one (Harness::catch returns Ok), and their yield polls the
+       tasks spawned before the panic, which can restart the module and send.  The statement is
+       FALSE there, of the model and of the code (Refuted/C13.v, corpus/C13/multistage_panic.txt line 3,
+       proposed patch fixes/F17.diff);
+   (2) the tear-down records of the other modules agree only up to their time stamp (left-over
+       wake-ups of the dead module move the end of the simulation): checked by the monitor, not proved. *)
+Theorem C13_others_as_if_silent_partial : forall sc m,
+  c_stages (cfg sc m) = 1 \/ c_catch (cfg sc m) = false ->
   others m (items (events_of (trace sc))) = others m (items (events_of (trace (quieten m sc)))).
 Proof. intros sc m H. apply (others_as_if_silent sc m H); apply run_terminates. Qed.
 Print Assumptions C13_others_as_if_silent_partial.
